@@ -264,6 +264,11 @@ func vnMakeBlock(t *testing.T, parent Block, height uint64, ts int64, certs []*C
 
 // Accept under a watchdog: the real Accept retries missing chunks forever by design
 func vnAccept(n *Node[dsmrtest.Tx], blk Block, limit time.Duration) (ExecutedBlock[dsmrtest.Tx], error, bool) {
+	return vnAcceptAbort(n, blk, limit, nil)
+}
+
+// abort (optional) ends the wait early, e.g. when the scripted peers see the call spinning
+func vnAcceptAbort(n *Node[dsmrtest.Tx], blk Block, limit time.Duration, abort <-chan struct{}) (ExecutedBlock[dsmrtest.Tx], error, bool) {
 	type out struct {
 		eb  ExecutedBlock[dsmrtest.Tx]
 		err error
@@ -277,6 +282,8 @@ func vnAccept(n *Node[dsmrtest.Tx], blk Block, limit time.Duration) (ExecutedBlo
 	case o := <-ch:
 		return o.eb, o.err, true
 	case <-time.After(limit):
+		return ExecutedBlock[dsmrtest.Tx]{}, nil, false
+	case <-abort:
 		return ExecutedBlock[dsmrtest.Tx]{}, nil, false
 	}
 }
